@@ -544,6 +544,10 @@ func pruneBy(as Assume, extra func(f *paths.Frame, iff *ssa.If, idx int) bool) f
 		if extra != nil && extra(f, iff, idx) {
 			return true
 		}
+		// a dispatch table: `v, ok := table[x]` on a package-level map under an assumed value of x
+		if v, known := foldLookupUnder(as, iff.Cond); known {
+			return v != (idx == 0)
+		}
 		atom, truth := edgeAtomOnPath(f, iff, idx)
 		if atom == "" {
 			// a comparison of two booleans whose atoms are both assumed: (a > 0) != (b > 0)
@@ -936,4 +940,114 @@ func decideByAssumedValue(as Assume, atom string) (val bool, known bool) {
 func isUnsigned(t types.Type) bool {
 	b, ok := t.Underlying().(*types.Basic)
 	return ok && b.Info()&types.IsUnsigned != 0
+}
+
+// globalMapInit: the constant entries the package initialiser puts into the package-level map g (key as exact
+// string -> value); ok is false when the map is filled in another way.
+func globalMapInit(g *ssa.Global) (map[string]constant.Value, bool) {
+	if g.Pkg == nil {
+		return nil, false
+	}
+	init := g.Pkg.Func("init")
+	if init == nil {
+		return nil, false
+	}
+	var mk ssa.Value
+	for _, b := range init.Blocks {
+		for _, in := range b.Instrs {
+			if st, ok := in.(*ssa.Store); ok && st.Addr == ssa.Value(g) {
+				mk = st.Val
+			}
+		}
+	}
+	if _, ok := mk.(*ssa.MakeMap); !ok {
+		return nil, false
+	}
+	out := map[string]constant.Value{}
+	for _, b := range init.Blocks {
+		for _, in := range b.Instrs {
+			mu, ok := in.(*ssa.MapUpdate)
+			if !ok || mu.Map != mk {
+				continue
+			}
+			k, ok1 := mu.Key.(*ssa.Const)
+			v, ok2 := mu.Value.(*ssa.Const)
+			if !ok1 || k.Value == nil {
+				return nil, false
+			}
+			if ok2 && v.Value != nil {
+				out[k.Value.ExactString()] = v.Value
+			} else {
+				out[k.Value.ExactString()] = nil // present, value not a constant (a function)
+			}
+		}
+	}
+	return out, true
+}
+
+// lookupOnGlobalMap: v is `x, ok := m[k]` (or an extract of it) on a package-level map.
+func lookupOnGlobalMap(v ssa.Value) (lk *ssa.Lookup, g *ssa.Global, idx int, ok bool) {
+	ex, isEx := v.(*ssa.Extract)
+	if !isEx {
+		return nil, nil, 0, false
+	}
+	lk, isLk := ex.Tuple.(*ssa.Lookup)
+	if !isLk || !lk.CommaOk {
+		return nil, nil, 0, false
+	}
+	u, isLoad := lk.X.(*ssa.UnOp)
+	if !isLoad {
+		return nil, nil, 0, false
+	}
+	g, isG := u.X.(*ssa.Global)
+	if !isG {
+		return nil, nil, 0, false
+	}
+	return lk, g, ex.Index, true
+}
+
+// foldLookupUnder: cond is the ok (or the boolean value) of a lookup in a package-level table whose key has an
+// assumed value (`eq:<key>:K` = true): the outcome follows from the table's initialiser.
+func foldLookupUnder(as Assume, cond ssa.Value) (val bool, known bool) {
+	truth := true
+	for i := 0; i < 4; i++ {
+		if u, ok := cond.(*ssa.UnOp); ok && u.Op == token.NOT {
+			cond, truth = u.X, !truth
+			continue
+		}
+		break
+	}
+	lk, g, idx, ok := lookupOnGlobalMap(cond)
+	if !ok {
+		return false, false
+	}
+	what := describeOperand(lk.Index)
+	if what == "" {
+		return false, false
+	}
+	prefix := "eq:" + what + ":"
+	key := ""
+	for k, v := range as {
+		if v && strings.HasPrefix(k, prefix) {
+			key = k[len(prefix):]
+		}
+	}
+	if key == "" {
+		return false, false
+	}
+	tab, ok := globalMapInit(g)
+	if !ok {
+		return false, false
+	}
+	v, present := tab[key]
+	if idx == 1 {
+		return present == truth, true
+	}
+	if !present {
+		return !truth, true // the zero value: false
+	}
+	if v == nil || v.Kind() != constant.Bool {
+		return false, false
+	}
+	return constant.BoolVal(v) == truth, true
 }
